@@ -440,8 +440,8 @@ func c01DialOwner(c *Ctx) {
 			k := name + " in " + sf
 			netw, isConst := constString(arg(ci, 0))
 			switch {
-			case sf == "(*cmd/rdpgw/protocol.Processor).Process":
-				c.OK(rule, k, ci.Pos(), "the backend dial of the packet loop (governed by C01/typestate)")
+			case sf == "(*cmd/rdpgw/protocol.Processor).Process" || c.onlyCalledFrom(fn, c.Fn("cmd/rdpgw/protocol", "Processor.Process"), 0):
+				c.OK(rule, k, ci.Pos(), "the backend dial of the packet loop (governed by C01/typestate, which inlines the loop's helpers)")
 			case sf == "(*cmd/rdpgw/kdcproxy.KerberosProxy).forward":
 				c.OK(rule, k, ci.Pos(), "KDC proxy dial (reachable only from the KDC proxy handler; C20)")
 			case isConst && netw == "unix":
@@ -488,53 +488,13 @@ func structInitStores(alloc ssa.Value) map[string][]*ssa.Store {
 
 // reachWithoutMarker: target can be reached from the entry without executing an instruction accepted by marker.
 func reachWithoutMarker(fn *ssa.Function, target ssa.Instruction, marker func(ssa.Instruction) bool) bool {
-	seen := map[*ssa.BasicBlock]bool{}
-	work := []*ssa.BasicBlock{fn.Blocks[0]}
-	for len(work) > 0 {
-		b := work[0]
-		work = work[1:]
-		if seen[b] {
-			continue
-		}
-		seen[b] = true
-		blocked := false
-		for _, in := range b.Instrs {
-			if in == target {
-				return true
-			}
-			if marker(in) {
-				blocked = true
-				break
-			}
-		}
-		if !blocked && !blockNeverReturns(b) {
-			work = append(work, b.Succs...)
-		}
-	}
-	return false
+	return reachFromWithoutMarkerAvoiding(fn.Blocks[0], target, marker, nil)
 }
 
 // confFieldPath: v is a load of <global conf>.A.B...; returns "A.B".
 func confFieldPath(v ssa.Value) (string, bool) {
-	a, ok := loadAddr(strip(v))
-	if !ok {
-		return "", false
-	}
-	var path []string
-	for {
-		fa, ok := a.(*ssa.FieldAddr)
-		if !ok {
-			break
-		}
-		_, f, _ := fieldOfAddr(fa)
-		path = append([]string{f.Name()}, path...)
-		a = fa.X
-	}
-	g, ok := a.(*ssa.Global)
-	if !ok || g.Name() != "conf" {
-		return "", false
-	}
-	return strings.Join(path, "."), true
+	// main's package variable conf, also when a start-up helper is handed (a pointer to) it
+	return confVarPath(v, "conf")
 }
 
 func wiringRule(c *Ctx, rule string) {
@@ -542,7 +502,7 @@ func wiringRule(c *Ctx, rule string) {
 	// the Gateway whose bound method is registered
 	var gw ssa.Value
 	var regs []*ssa.MakeClosure
-	eachInstr(mainFn, func(in ssa.Instruction) {
+	c.eachMainInstr(func(in ssa.Instruction) {
 		mc, ok := in.(*ssa.MakeClosure)
 		if !ok {
 			return
@@ -700,77 +660,91 @@ func reachFromWithoutMarkerAvoiding(start *ssa.BasicBlock, target ssa.Instructio
 func c01LegacyClaim(c *Ctx) {
 	rule := "C01/legacy-claim"
 	inF := c.FieldVar("cmd/rdpgw/protocol", "Tunnel", "transportIn")
+	// claimsFirst: walking forward from instruction index idx of block bb, every path stores a
+	// non-nil IN leg into tv.transportIn before any call that waits on the network; a static call of a
+	// first-party helper that is handed tv is entered (depth 1). Returns "" or what goes wrong.
+	var claimsFirst func(bb *ssa.BasicBlock, idx int, tv ssa.Value, seen map[*ssa.BasicBlock]bool, depth int) string
+	claimsFirst = func(bb *ssa.BasicBlock, idx int, tv ssa.Value, seen map[*ssa.BasicBlock]bool, depth int) string {
+		if idx == 0 {
+			if seen[bb] {
+				return ""
+			}
+			seen[bb] = true
+		}
+		for j := idx; j < len(bb.Instrs); j++ {
+			in := bb.Instrs[j]
+			if s, ok := in.(*ssa.Store); ok {
+				if b, f, ok := fieldOfAddr(s.Addr); ok && f == inF && strip(b) == tv && !isNil(s.Val) {
+					return "" // claimed
+				}
+			}
+			ci, ok := in.(ssa.CallInstruction)
+			if !ok {
+				continue
+			}
+			if blocksOnNetwork(ci) {
+				return calleeName(ci) + " at " + c.P.Pos(ci.Pos())
+			}
+			if calleeName(ci) == protoPkg+".NewProcessor" && len(ci.Common().Args) > 1 && strip(ci.Common().Args[1]) == tv {
+				return "the packet loop is set up without attaching the IN leg"
+			}
+			if h := ci.Common().StaticCallee(); h != nil && IsFirstParty(h) && h.Blocks != nil && depth < 1 && h.Pkg == bb.Parent().Pkg {
+				for i, a := range ci.Common().Args {
+					if strip(a) == tv && i < len(h.Params) {
+						if why := claimsFirst(h.Blocks[0], 0, h.Params[i], map[*ssa.BasicBlock]bool{}, depth+1); why != "" {
+							return why
+						}
+						// the helper claims on every path that returns? it must not return unclaimed
+						return ""
+					}
+				}
+			}
+		}
+		if len(bb.Succs) == 0 {
+			if _, isRet := bb.Instrs[len(bb.Instrs)-1].(*ssa.Return); isRet && depth > 0 {
+				return "a path through helper " + bb.Parent().Name() + " returns without attaching the IN leg"
+			}
+			return ""
+		}
+		for _, s2 := range bb.Succs {
+			if why := claimsFirst(s2, 0, tv, seen, depth); why != "" {
+				return why
+			}
+		}
+		return ""
+	}
 	n := 0
 	for _, fn := range c.allFirstPartyFuncs() {
-		if !c.Reachable()[fn] {
+		if !c.Reachable()[fn] || fn.Pkg == nil || fn.Pkg.Pkg.Path() != protoPkg {
 			continue
 		}
-		for _, np := range callsTo(fn, protoPkg+".NewProcessor") {
-			tv := strip(arg(np, 1))
-			// stores attaching an IN leg to this tunnel in fn
-			var stores []*ssa.Store
-			eachInstr(fn, func(in ssa.Instruction) {
-				if s, ok := in.(*ssa.Store); ok {
-					if b, f, ok := fieldOfAddr(s.Addr); ok && f == inF && strip(b) == tv && !isNil(s.Val) {
-						stores = append(stores, s)
-					}
-				}
-			})
-			// nil tests of transportIn of this tunnel
+		for _, b := range fn.Blocks {
+			if len(b.Instrs) == 0 {
+				continue
+			}
+			ifi, ok := b.Instrs[len(b.Instrs)-1].(*ssa.If)
+			if !ok {
+				continue
+			}
+			var tv ssa.Value
 			isIn := func(v ssa.Value) bool {
-				b, f, ok := fieldLoad(strip(v))
-				return ok && f == inF && strip(b) == tv
+				bb, f, ok := fieldLoad(strip(v))
+				if ok && f == inF {
+					tv = strip(bb)
+					return true
+				}
+				return false
 			}
-			tested := false
-			for _, b := range fn.Blocks {
-				if len(b.Instrs) == 0 {
+			for i, succ := range b.Succs {
+				tv = nil
+				if !GEq(isIn, anyNil)(ifi.Cond, i == 0) || tv == nil {
 					continue
 				}
-				ifi, ok := b.Instrs[len(b.Instrs)-1].(*ssa.If)
-				if !ok {
-					continue
-				}
-				for i, succ := range b.Succs {
-					if !GEq(isIn, anyNil)(ifi.Cond, i == 0) {
-						continue
-					}
-					tested = true
-					n++
-					// from the "no IN leg yet" edge: every path reaches a claiming store before any network call
-					bad := ""
-					seen := map[*ssa.BasicBlock]bool{}
-					var walk func(bb *ssa.BasicBlock)
-					walk = func(bb *ssa.BasicBlock) {
-						if seen[bb] || bad != "" {
-							return
-						}
-						seen[bb] = true
-						for _, in := range bb.Instrs {
-							if s, ok := in.(*ssa.Store); ok {
-								for _, st := range stores {
-									if s == st {
-										return // claimed
-									}
-								}
-							}
-							if ci, ok := in.(ssa.CallInstruction); ok && blocksOnNetwork(ci) {
-								bad = calleeName(ci) + " at " + c.P.Pos(ci.Pos())
-								return
-							}
-							if in == np.(ssa.Instruction) {
-								bad = "the packet loop is set up without attaching the IN leg"
-								return
-							}
-						}
-						for _, s2 := range bb.Succs {
-							walk(s2)
-						}
-					}
-					walk(succ)
-					c.Check(bad == "" && len(stores) > 0, rule, "claim in "+shortFn(fn)+"#"+itoa(n), ifi.Pos(), "after 'no IN leg yet' the leg is attached before any call that waits on the client", "between the transportIn == nil test and the store that attaches the IN leg there is "+bad+": a second RDG_IN_DATA request for the same connection id passes the same test meanwhile and starts a second packet loop (state INITIALIZED, its own backend dial) on the tunnel")
-				}
+				// only tests that lead to a packet loop on this tunnel matter
+				n++
+				why := claimsFirst(succ, 0, tv, map[*ssa.BasicBlock]bool{}, 0)
+				c.Check(why == "", rule, "claim in "+shortFn(fn)+"#"+itoa(n), ifi.Pos(), "after 'no IN leg yet' the leg is attached before any call that waits on the client", "between the transportIn == nil test and the store that attaches the IN leg there is "+why+": a second RDG_IN_DATA request for the same connection id passes the same test meanwhile and starts a second packet loop (state INITIALIZED, its own backend dial) on the tunnel")
 			}
-			_ = tested // a handler that attaches its leg unconditionally (websocket: the tunnel is not shared through the cache by a second request of this kind) has no claim to check
 		}
 	}
 	c.Floor(rule, 1, "legacy IN branch")
